@@ -38,7 +38,7 @@ pub struct Poly {
 pub fn meta() -> PropMeta {
   PropMeta {
     id: "C12",
-    rule: "cases = polygons built around a centre c (5-class generator, |lat_c| + R + 0.02 < pi/2), R log-uniform in [1e-4, 0.8) (3/4) or [1e-9, 1e-4) (1/4): convex = 3..=12 vertices on a small circle of radius in [0.3R, R] at jittered azimuths (gaps in (0.05, 0.95*pi)), star-shaped = same azimuths with radii in [0.2R, R]; both winding orders and any starting vertex; depth <= 29 with R*nside <= 128 (one case in 3500: R*nside ~ 1e5, a polygon 17 levels above the requested depth); both modes (approximate / exact); 12..24 probe points within 2R, 4..8 anywhere and 4..10 on the exact meridian of a vertex for the point-in-polygon predicate; in one case out of three the vertex longitudes are snapped onto the columns of cell corners of the requested depth; non-trivial = polygon overlapping >= 4 cells of the requested depth; distinct by (depth, mode, vertices)",
+    rule: "cases = polygons built around a centre c (5-class generator, |lat_c| + R + 0.02 < pi/2), R log-uniform in [1e-4, 0.8) (3/4) or [1e-9, 1e-4) (1/4): convex = 3..=12 vertices on a small circle of radius in [0.3R, R] at jittered azimuths (gaps in (0.05, 0.95*pi)), star-shaped = same azimuths with radii in [0.2R, R]; both winding orders and any starting vertex; depth <= 29 with R*nside <= 128 (one case in 14000: R*nside ~ 1e5, a polygon 17 levels above the requested depth); both modes (approximate / exact); 12..24 probe points within 2R, 4..8 anywhere and 4..10 on the exact meridian of a vertex for the point-in-polygon predicate; in one case out of three the vertex longitudes are snapped onto the columns of cell corners of the requested depth; non-trivial = polygon overlapping >= 4 cells of the requested depth; distinct by (depth, mode, vertices)",
     assumptions: vec![
       "inside/outside reference: star-shaped rule around c (in the azimuth wedge of an edge, same side of the edge's great circle as c), identical to the half-space definition for convex polygons; points within min(1e-9, max(1e-13, 1e-4 R)) rad of an edge plane or of a wedge boundary are not judged".into(),
       "general no-miss soundness of polygon coverage is not claimed by the property and not checked".into(),
@@ -384,7 +384,7 @@ fn strat_generic() -> BoxedStrategy<Poly> {
         0.0f64..(2.0 * PI),
         // (rarely: a depth 17 levels or more below the starting depth of the polygon, i.e. a polygon
         // 2^16 cells across: 1e5 .. 1e6 returned cells, the shifts / products by 4^delta of the recursion)
-        prop_oneof![1500 => Just(maxd), 1000 => Just(maxd.saturating_sub(2)), 1000 => 0u8..=maxd, 1 => Just(((0.9 / r).log2().ceil().max(0.0) as u8 + 17).min(29))],
+        prop_oneof![6000 => Just(maxd), 4000 => Just(maxd.saturating_sub(2)), 4000 => 0u8..=maxd, 1 => Just(((0.9 / r).log2().ceil().max(0.0) as u8 + 17).min(29))],
         prop::collection::vec((0.0f64..1.0, 0.0f64..(2.0 * PI)), 12..24),
         prop::collection::vec((0.0f64..(2.0 * PI), -1.0f64..=1.0), 4..8),
         prop::collection::vec((0usize..12, prop_oneof![3 => -2.5f64..2.5, 1 => -40.0f64..40.0]), 4..10),
